@@ -31,6 +31,12 @@ class RHooks(LibHooks):
                         st.tags['rewind'] = (ins.loc(), repr(val), repr(head), exact)
                     elif not S.entails_ge0(d.neg()):
                         self.log.append(('cursor-maybe-back', ins.loc(), repr(old[2]), repr(val)))
+        if r.name == 'STATE' and 'rewind' in st.tags and isinstance(val, Int):
+            # a level-flags store that follows the rewind on the same path
+            fo_, fsz_ = self.lay.state['flags']
+            ef = self.elem_field(off)
+            if ef is not None and ef[1] == fo_ and size == fsz_:
+                st.tags['rewind_flags'] = st.store.const_of(val.a)
         LibHooks.on_store(self, st, r, off, size, val, ins)
 
     def on_return(self, st, fn, ret):
@@ -59,6 +65,24 @@ class RHooks(LibHooks):
                 name_written = True
             if f == fo and sz == fsz:
                 c = (st.cells('STATE') or {}).get((okey, sz))
+                if c is not None and isinstance(c[2], Int):
+                    flags_val = S.const_of(c[2].a)
+        if flags_val is None and st.tags.get('rewind_flags') is not None:
+            flags_val = st.tags.get('rewind_flags')
+        st.tags.pop('rewind_flags', None)
+        if flags_val is None:
+            # not found among the cells written since the last join: read the level through parser->current_state
+            F = lay.parser
+            cs = (st.cells('P') or {}).get(((F['current_state'][0], ()), F['current_state'][1]))
+            if cs is not None and isinstance(cs[2], Ptr) and cs[2].region == 'STATE':
+                o_ = cs[2].off.add(fo)
+                c = (st.cells('STATE') or {}).get((o_.key(), fsz))
+                if c is None:
+                    # the same cell under another (provably equal) offset expression
+                    for (k_, (co, csz, cv)) in (st.cells('STATE') or {}).items():
+                        if csz == fsz and all(z in S.ivl for z in co.t) and all(z in S.ivl for z in o_.t) and S.entails_eq0(co.sub(o_)):
+                            c = (co, csz, cv)
+                            break
                 if c is not None and isinstance(c[2], Int):
                     flags_val = S.const_of(c[2].a)
         self.log.append(('rewind', loc, val, head, exact, rc, name_written, flags_val,
